@@ -59,6 +59,28 @@ fn shape_violation(enc: &[u8], a: u16, t: u8, d: &[u8]) -> Option<String> {
     None
 }
 
+/// Data blocks with runs of one repeated byte: whole blocks of one value, and runs of 2..=24 equal bytes at every alignment
+/// inside otherwise random data (what run-length or word-at-a-time encoders treat specially).
+pub fn run_blocks(rng: &mut Rng, thorough: bool) -> Vec<Vec<u8>> {
+    let mut out = vec![];
+    for fill in [0x7Fu8, 0x10, 0xA5, 0x01, 0xFE, 0x0F, 0xF0] {
+        for len in [2usize, 4, 8, 12, 16, 20, 24, 32, 64, 255] {
+            out.push(vec![fill; len]);
+        }
+    }
+    for k in 0..(if thorough { 400 } else { 96 }) {
+        let fill = [0x7Fu8, 0x10, 0xA5, 0x3C, 0xC3, 0x12][k % 6];
+        let pre = k % 17;
+        let run = 2 + (k / 3) % 23;
+        let post = (k / 7) % 19;
+        let mut d = rng.bytes(pre);
+        d.extend(vec![fill; run]);
+        d.extend(rng.bytes(post));
+        out.push(d);
+    }
+    out
+}
+
 fn rt_case(ctx: &mut Ctx, a: u16, t: u8, d: &[u8], borrowed: bool, class: &str) {
     let line = format!("{} {} {} {}", if borrowed { "RTB" } else { "RT" }, a, t, hex_of_bytes(d));
     let res = ctx.case(line.clone(), true, class);
@@ -108,6 +130,10 @@ fn gen_c01(ctx: &mut Ctx) {
             };
             rt_case(ctx, a, t, &d, k % 2 == 1, &format!("len{:03}", len / 32 * 32));
         }
+    }
+    // runs of one repeated byte, as whole blocks and at every alignment inside random data
+    for (k, d) in run_blocks(&mut rng, ctx.tier_thorough).into_iter().enumerate() {
+        rt_case(ctx, [0u16, 0x0102, 0xFFFF, 0x7F7F][k % 4], [0u8, 1, 9, 0x7F][k / 4 % 4], &d, k % 2 == 0, "runs-of-one-byte");
     }
     // frames whose bytes add up to as much as a frame can (sum of all encoded bytes just below / at / above 65535)
     for (a, t, len, fill, last) in [(0xFFFFu16, 0xFFu8, 255usize, 0xFFu8, 0xFFu8), (0xFFFF, 0xFF, 254, 0xFF, 0xFF), (0xFFFF, 0xFF, 255, 0xFF, 0x00),
@@ -250,6 +276,19 @@ pub fn ref_encode(a: u16, t: u8, d: &[u8], nl: bool) -> Vec<u8> {
 /// Hand-built wire strings carrying MORE than 255 data bytes whose length byte is the actual count modulo 256
 /// (or off by one from it) and whose checksum is right for the bytes as written: a decoder that compares the
 /// count in 8 bits, or skips the 255-byte limit, accepts them.
+/// What may follow a frame's text on the wire: the documented CR LF, and everything near it.
+pub fn line_endings() -> Vec<Vec<u8>> {
+    let mut v: Vec<Vec<u8>> = vec![b"\r\n".to_vec(), b"\n".to_vec(), b"\r".to_vec(), b"\r\r\n".to_vec(), b"\n\n".to_vec(), b"\n\r\n".to_vec(), b"\r\n\n".to_vec(), b"\r\n\r\n".to_vec(), b"\n\r".to_vec(), b" \r\n".to_vec(), b"\r\n ".to_vec(), b"\x0c".to_vec(), b"\x0b".to_vec()];
+    for stray in [b'0', b'F', b'X', b' ', b':', 0u8, 0xFF, b'\t', b'\r'] {
+        v.push(vec![stray, b'\n']);
+        v.push(vec![stray, b'\r', b'\n']);
+        v.push(vec![b'\r', stray, b'\n']);
+        v.push(vec![stray, stray, b'\n']);
+        v.push(vec![stray]);
+    }
+    v
+}
+
 pub fn oversize_strings(rng: &mut Rng) -> Vec<Vec<u8>> {
     let mut out = vec![];
     for (k, n) in [256usize, 257, 300, 511, 512, 515, 768, 1023, 2042, 2043, 2100, 4096, 5000].iter().enumerate() {
@@ -575,6 +614,19 @@ fn gen_c03(ctx: &mut Ctx) {
     // more than 255 data bytes with a length byte equal to (or one off) the count modulo 256
     for s in oversize_strings(&mut rng) {
         dec_case(ctx, &s, "oversize-wire-data");
+    }
+    // ... and the same texts, and maximum-length valid ones, followed by every kind of line ending and stray byte
+    {
+        let mut texts: Vec<Vec<u8>> = oversize_strings(&mut rng).into_iter().take(8).map(|mut s| { if s.ends_with(b"\r\n") { s.truncate(s.len() - 2); } s }).collect();
+        texts.push(ref_encode(0x0102, 0, &rng.bytes(255), false));
+        texts.push(ref_encode(0xFFFF, 9, &rng.bytes(254), false));
+        for t in &texts {
+            for term in line_endings() {
+                let mut s = t.clone();
+                s.extend_from_slice(&term);
+                dec_case(ctx, &s, "long-text-line-endings");
+            }
+        }
     }
     // the heaviest frames there are (all encoded bytes 0xFF or nearly), valid and with one digit changed
     for (a, t, len, last) in [(0xFFFFu16, 0xFFu8, 255usize, 0xFFu8), (0xFFFF, 0xFF, 254, 0xFF), (0xFFFE, 0xFF, 255, 0xFE), (0x00FF, 0, 255, 0xFF)] {
@@ -1189,6 +1241,12 @@ fn gen_c05(ctx: &mut Ctx) {
         let res = ctx.case(line.clone(), true, "stream-of-messages");
         let want = format!("{} | left=0", msgs.iter().map(|m| format!("OK {}", m)).collect::<Vec<_>>().join(" ; "));
         ctx.monitor(res == want, "C05-roundtrip", &line[..line.len().min(300)], &res[..res.len().min(200)]);
+    }
+    // runs of one repeated byte in data chunks, as whole blocks and at every alignment inside random data
+    for (k, d) in run_blocks(&mut rng, ctx.tier_thorough).into_iter().enumerate() {
+        let m = format!("SD.{}.{}", [0u32, 16, 0x7F7F, 65535][k % 4], hex_of_bytes(&d));
+        wire_case(ctx, m.clone(), "runs-of-one-byte");
+        inj(ctx, &m);
     }
     // every data length 0..=255 through the stream functions, as a data chunk and as a frame of an unassigned type
     for len in 0..=255usize {
